@@ -322,5 +322,5 @@ func (a *qtArea) Gen(r *hx.Rng, n int, _ string, emit func(string)) {
 
 func main() {
 	debug.SetMaxStack(64 << 20) // a runaway split recursion dies quickly instead of after 1 GB
-	hx.Main(map[string]hx.Area{"quadtree": &qtArea{}})
+	hx.Main(map[string]hx.Area{"quadtree": &qtArea{}, "floatscan": fsArea{}})
 }
